@@ -178,7 +178,11 @@ def r72(ctx):
         for s in ob.stmts(bi):
             if s.kind == "a" and s.place.is_local() and s.place.local == 0 and s.rv.op == "agg" and s.rv.ops:
                 rets.append(render(ov.expr(s.rv.ops[0])))
-    okf = sorted(r.replace("self.policy.", "") for r in rets) == ["((value0 - value1) > epsilon_sat)", "((value1 - value0) > epsilon_sat)"]
+    norm = sorted(r.replace("self.policy.", "") for r in rets)
+    # |a - b| > epsilon: the two ordered differences, or abs_diff in either operand order
+    import re as _re
+    okf = norm == ["((value0 - value1) > epsilon_sat)", "((value1 - value0) > epsilon_sat)"] or \
+        (bool(norm) and all(_re.match(r"^\([\w:<> ]*abs_diff\((value0, value1|value1, value0)\) > epsilon_sat\)$", r) for r in norm))
     ctx.ob("R7.2", okf, f"{ob.name}/formula", f"outside_epsilon_range returns {rets}", where=f"{ob.file}:{ob.line}", sample=rets)
     R.named_scenario_refused(ctx, "R7.2", ob, ["value0 <= value1"],
                              f"{ob.name}/branch", "outside_epsilon_range subtracts in the wrong direction",
